@@ -14,6 +14,7 @@ import (
 	eth2spec "github.com/attestantio/go-eth2-client/spec"
 	"github.com/attestantio/go-eth2-client/spec/electra"
 	"github.com/attestantio/go-eth2-client/spec/altair"
+	"github.com/attestantio/go-eth2-client/spec/bellatrix"
 	eth2p0 "github.com/attestantio/go-eth2-client/spec/phase0"
 
 	"github.com/obolnetwork/charon/app/eth2wrap"
@@ -72,6 +73,7 @@ func (vClient) Spec(context.Context, *eth2api.SpecOpts) (*eth2api.Response[map[s
 		string(signing.DomainSyncCommittee): eth2p0.DomainType{7, 0, 0, 0},
 		string(signing.DomainExit):          eth2p0.DomainType{4, 0, 0, 0},
 		string(signing.DomainBeaconAttester): eth2p0.DomainType{1, 0, 0, 0},
+		string(signing.DomainBeaconProposer):              eth2p0.DomainType{0, 0, 0, 0},
 		string(signing.DomainSelectionProof):              eth2p0.DomainType{5, 0, 0, 0},
 		string(signing.DomainSyncCommitteeSelectionProof): eth2p0.DomainType{8, 0, 0, 0},
 	}}, nil
@@ -330,6 +332,72 @@ func VerifC10VapiSelection() {
 	}
 	vrt.Assert("a partial selection proof is accepted exactly when it verifies for its own slot (and subcommittee), domain and epoch under this node's public share of a cluster validator",
 		(err == nil) == valid)
+	vrt.Assert("subscribers are called only for an accepted submission", (*delivered == 1) == (err == nil) && *delivered <= 1)
+	if err == nil {
+		vrt.Reach("accepted")
+	}
+	vrt.Reach("end")
+}
+
+func init() { VerifHarnesses["VerifC10VapiProposal"] = VerifC10VapiProposal }
+
+// vBlock: a bellatrix block (go-eth2-client's VersionedSignedProposal accessors support bellatrix and later only).
+func vBlock(slot, proposer uint64, graffiti byte) *bellatrix.BeaconBlock {
+	var g [32]byte
+	g[0] = graffiti
+	return &bellatrix.BeaconBlock{
+		Slot:          eth2p0.Slot(slot),
+		ProposerIndex: eth2p0.ValidatorIndex(proposer),
+		Body: &bellatrix.BeaconBlockBody{
+			ETH1Data:         &eth2p0.ETH1Data{BlockHash: make([]byte, 32)},
+			Graffiti:         g,
+			SyncAggregate:    &altair.SyncAggregate{SyncCommitteeBits: bitfield.NewBitvector512()},
+			ExecutionPayload: &bellatrix.ExecutionPayload{},
+		},
+	}
+}
+
+// VerifC10VapiProposal: the validator client submits a signed block for a slot whose proposer duty belongs to
+// cluster validator "val" (1 or 2), as a bellatrix block. The cluster agreed on a block (what the duty store serves); the submitted block's
+// content (proposer index, graffiti) and every ingredient of what its signature was made over are symbolic.
+func VerifC10VapiProposal() {
+	c, delivered := vComponent()
+	vidx := byte(vrt.Param("val"))
+	slot := uint64(vrt.Byte("slot"))
+	agreedProposer, agreedGraffiti := uint64(vrt.Byte("agreedProposer")), vrt.Byte("agreedGraffiti")
+	vcProposer, vcGraffiti := uint64(vrt.Byte("vcProposer")), vrt.Byte("vcGraffiti")
+	// what the signature is over: a block (sSlot, sProposer, sGraffiti) in the proposer domain at the fork of sForkEpoch
+	sSlot, sProposer, sGraffiti := uint64(vrt.Byte("signSlot")), uint64(vrt.Byte("signProposer")), vrt.Byte("signGraffiti")
+	sForkEpoch := uint64(vrt.Byte("signForkEpoch"))
+	sKey := vrt.Byte("signKey")
+	sRoot, errR := vBlock(sSlot, sProposer, sGraffiti).HashTreeRoot()
+	vrt.Assert("block root computable", errR == nil)
+	sd, errD := signing.GetDataRoot(context.Background(), vClient{}, signing.DomainBeaconProposer, eth2p0.Epoch(sForkEpoch), sRoot)
+	vrt.Assert("signing root computable", errD == nil)
+	var sig eth2p0.BLSSignature
+	sig[0], sig[1] = vrt.Byte("sigKind"), sKey
+	for i := 0; i < 8; i++ {
+		sig[2+i] = sd[i]
+	}
+	pk, want := vPkA, byte(12)
+	if vidx == 2 {
+		pk, want = vPkB, 22
+	}
+	c.RegisterGetDutyDefinition(func(_ context.Context, d core.Duty) (core.DutyDefinitionSet, error) {
+		return core.DutyDefinitionSet{pk: core.NewProposerDefinition(&eth2v1.ProposerDuty{Slot: eth2p0.Slot(d.Slot), ValidatorIndex: eth2p0.ValidatorIndex(vidx)})}, nil
+	})
+	c.RegisterAwaitProposal(func(_ context.Context, s uint64) (*eth2api.VersionedProposal, error) {
+		return &eth2api.VersionedProposal{Version: eth2spec.DataVersionBellatrix, Bellatrix: vBlock(s, agreedProposer, agreedGraffiti)}, nil
+	})
+	err := c.SubmitProposal(context.Background(), &eth2api.SubmitProposalOpts{Proposal: &eth2api.VersionedSignedProposal{
+		Version:   eth2spec.DataVersionBellatrix,
+		Bellatrix: &bellatrix.SignedBeaconBlock{Message: vBlock(slot, vcProposer, vcGraffiti), Signature: sig},
+	}})
+	matches := vcProposer == agreedProposer && vcGraffiti == agreedGraffiti
+	sameFork := (slot/4 >= 20) == (sForkEpoch >= 20)
+	sigOK := sig[0] == 1 && sKey == want && sSlot == slot && sProposer == vcProposer && sGraffiti == vcGraffiti && sameFork
+	vrt.Assert("a signed block is accepted exactly when it equals the agreed proposal and its signature verifies for its own root, domain and epoch under this node's public share of the proposing validator",
+		(err == nil) == (matches && sigOK))
 	vrt.Assert("subscribers are called only for an accepted submission", (*delivered == 1) == (err == nil) && *delivered <= 1)
 	if err == nil {
 		vrt.Reach("accepted")
